@@ -167,6 +167,10 @@ Definition in_support (k : dist) (ps : list Q) (x : Q) : bool :=
      Idle     --check-->  Checked   when the lock file is empty or carries the task's own pass
                                     (otherwise the task keeps polling; after the time-out it gives up,
                                      __enter__ returns fd = None and the row is silently dropped)
+              --takeover-> Checked  the lock file carries a foreign pass but its owner process is dead or the lock is older
+                                    than the dead-lock delay (an earlier run was killed while holding it): pylocker
+                                    takes it over (acquire code 2); whether that applies is a fact of the environment,
+                                    so it is an action of the schedule
      Checked  --write-->  Written   the lock file now carries this task's pass (write tmp + os.rename)
      Written  --verify--> Holding   if the lock file still carries this task's pass, else back to Idle
      Holding  --release-> DoneOk    the row is in the result file.  The work package writes the row into the buffered
@@ -179,7 +183,7 @@ Definition in_support (k : dist) (ps : list Q) (x : Q) : bool :=
                                     row never reaches the file.
    [early] selects the two variants: lstep / lrun are the current code, lstep_pinned / lrun_pinned the earlier one. *)
 Inductive phase : Type := PIdle | PChecked | PWritten | PHolding | PDoneOk | PDoneLost.
-Inductive action : Type := Step | Timeout.
+Inductive action : Type := Step | Timeout | Takeover.
 
 Record lstate : Type := LS { lock : option nat; phases : nat -> phase; file : list nat }.
 
@@ -196,6 +200,7 @@ Definition lstep_gen (early : bool) (st : lstate) (t : nat) (a : action) : lstat
   match phases st t, a with
   | PIdle, Step => if free_for (lock st) t then LS (lock st) (setp (phases st) t PChecked) (file st) else st
   | PIdle, Timeout => LS (lock st) (setp (phases st) t PDoneLost) (file st)
+  | PIdle, Takeover => LS (lock st) (setp (phases st) t PChecked) (file st)
   | PChecked, Step => LS (Some t) (setp (phases st) t PWritten) (file st)
   | PWritten, Step => if owned_by (lock st) t then LS (lock st) (setp (phases st) t PHolding) (file st)
                       else LS (lock st) (setp (phases st) t PIdle) (file st)
@@ -238,3 +243,12 @@ Definition double_acquire_schedule : list (nat * action) :=
 (* the lock is held by somebody else until task 0 gives up: its row is dropped (both variants) *)
 Definition timeout_schedule : list (nat * action) :=
   [(1, Step); (1, Step); (1, Step); (0, Step); (0, Timeout); (1, Step)]%nat.
+
+(* a run into a directory where a killed earlier run left its lock (owner id [o]): the first work package takes the stale
+   lock over, then the n work packages append one after the other *)
+Definition lstale (o : nat) : lstate := LS (Some o) (fun _ => PIdle) [].
+Definition stale_serial_schedule (n : nat) : list (nat * action) :=
+  match n with
+  | O => []
+  | S m => (0, Takeover) :: repeat (0, Step) 3 ++ flat_map (fun t => repeat (t, Step) 4) (seq 1 m)
+  end%nat.
